@@ -65,7 +65,8 @@ def gen(rng, n, tier):
         if mode == "nothist":
             nh = rng.choice(["scalar", "list", "array"])
             e = ["+", e, "nothist"] if rng.random() < 0.6 else ["+", "nothist", e]
-        yield [["bucket", "%s/%dd/%s" % (mode, nd, shape)], ["operands", ops], ["expr", e], ["nothist", nh]]
+        via = "T" if (mode == "same" and nd == 1 and shape == "sum" and rng.random() < 0.6) else "F"
+        yield [["bucket", "%s/%dd/%s%s" % (mode, nd, shape, "/collection" if via == "T" else "")], ["operands", ops], ["expr", e], ["nothist", nh], ["via_collection", via]]
 
 def impl(case):
     import numpy as np
@@ -78,6 +79,9 @@ def impl(case):
         if isinstance(e, int): return hs[e]
         if e == "nothist": return nothist
         if e[0] == "+": return ev(e[1]) + ev(e[2])
+        if d.get("via_collection") == "T" and e is d["expr"]:      # the same sum asked of a HistogramCollection
+            from physt.histogram_collection import HistogramCollection
+            return HistogramCollection(*[ev(x) for x in e[1:]]).sum()
         return sum(ev(x) for x in e[1:])
     if d["nothist"] != "none":
         # "outside free-arithmetics mode": an earlier block that enabled it and was left by an exception is over
